@@ -44,6 +44,8 @@ MAP = [
  ("loop bounds of a guarded array assignment", ["C05", "C01"]),
  ("variable that equals a loop variable", ["C07"]),
  ("guard read a temporary that is only set", ["C07"]),
+ ("single-precision complex constant", ["C09"]),
+ ("while a kind is still provisional", ["C14"]),
 ]
 def main():
     log = subprocess.run(["git", "-C", "/repo", "log", "--reverse", "--format=%h %s"],
